@@ -325,14 +325,10 @@ theorem lastBelow_of (p : Nat → Bool) (j k : Nat) (hk : k < j) (hpk : p k = tr
   rw [lastBelow_run' p (k + 1) j (by omega) (fun x h1 h2 => hb x (by omega) h2)]
   exact lastBelow_step_pos p k hpk
 
-/-- every entry recorded for the policy reference is a reference entry (no propagation into it) -/
-def PolicyRefEntriesOnly (W : World) : Prop :=
-  ∀ (j : Nat) (e : LogEntry), W.log[j]? = some e → e.ref = policyRef → e.kind = .ref
-
 /-- inside the range, the policy state the walk holds at `j` is the declarative "policy state
 recorded by the latest policy entry strictly before `j`" of Spec/C01 -/
 theorem polInForce_eq_policyBefore (W : World) (first : Nat) (p0 : Option Policy) (j k : Nat) (P : Policy)
-    (hpo : W.PolicyRefEntriesOnly)
+    (hpo : W.PolicyRefOnly)
     (hk : lastBelow (W.isPolK first) j = some k)
     (hP : W.polInForce first p0 j = some P) : W.policyBefore j = some P := by
   obtain ⟨hkj, hpk, hbetween⟩ := lastBelow_spec _ j k hk
@@ -362,8 +358,11 @@ theorem polInForce_eq_policyBefore (W : World) (first : Nat) (p0 : Option Policy
         cases href : (e.ref == policyRef) with
         | false => simp [href]
         | true =>
-          have hkind := hpo x e he (by simpa using href)
-          simp [hkind, href, hfx] at hnot
+          cases hux : isUpdater e with
+          | false => simp [hux]
+          | true =>
+            have hkind := hpo x e he (by simpa using href) hux
+            simp [hkind, href, hfx] at hnot
   unfold policyBefore
   rw [hlat]
   simp only [polInForce, hk] at hP
@@ -382,14 +381,10 @@ theorem polInForce_eq_policyBefore (W : World) (first : Nat) (p0 : Option Policy
       · cases hl
         simp [hQ']
 
-/-- every entry recorded for the attestations reference is a reference entry -/
-def AttRefEntriesOnly (W : World) : Prop :=
-  ∀ (j : Nat) (e : LogEntry), W.log[j]? = some e → e.ref = attestationsRef → e.kind = .ref
-
 /-- inside the range, the attestation state the walk holds at `j` is the declarative "attestation
 state recorded by the latest attestation entry strictly before `j`" of Spec/C01 -/
 theorem attInForce_eq_attBefore (W : World) (first : Nat) (a0 : Option AttState) (j k : Nat)
-    (hao : W.AttRefEntriesOnly)
+    (hao : W.AttRefOnly)
     (hk : lastBelow (W.isAttK first) j = some k) :
     W.attInForce first a0 j = W.attBefore j := by
   obtain ⟨hkj, hpk, hbetween⟩ := lastBelow_spec _ j k hk
@@ -418,8 +413,11 @@ theorem attInForce_eq_attBefore (W : World) (first : Nat) (a0 : Option AttState)
         cases href : (e.ref == attestationsRef) with
         | false => simp [href]
         | true =>
-          have hkind := hao x e he (by simpa using href)
-          simp [hkind, href, hfx] at hnot
+          cases hux : isUpdater e with
+          | false => simp [hux]
+          | true =>
+            have hkind := hao x e he (by simpa using href) hux
+            simp [hkind, href, hfx] at hnot
   unfold attBefore
   rw [hlat]
   simp only [attInForce, hk, Option.bind_some]
